@@ -33,11 +33,13 @@ func vfSign(key []byte, uid uint64, expires uint32, level, serial, features uint
 	return append(buf.Bytes(), h.Sum(nil)...)
 }
 
-func vfAuth() *authenticator {
+func vfAuth() *authenticator { return vfAuthSerial(7) }
+
+func vfAuthSerial(serial int) *authenticator {
 	a := &authenticator{}
-	cfg := fmt.Sprintf(`{"expire_in":1209600,"serial_num":7,"key":%q}`, base64.StdEncoding.EncodeToString(vfKey))
+	cfg := fmt.Sprintf(`{"expire_in":1209600,"serial_num":%d,"key":%q}`, serial, base64.StdEncoding.EncodeToString(vfKey))
 	if err := a.Init([]byte(cfg), "token"); err != nil {
-		panic(err)
+		return nil // configuration refused
 	}
 	return a
 }
@@ -153,6 +155,36 @@ func TestVerifC12Token(t *testing.T) {
 			}
 			if v.good && (rec == nil || rec.Uid != it.uid || rec.AuthLevel != it.level || rec.Features != it.features) {
 				r.Violation("token:rejects-"+v.key, fmt.Sprintf("%s -> %+v", desc, rec), desc)
+			}
+		}
+	}
+	// serial-number configurations: a token issued under one serial must be refused by a server
+	// configured with any other serial, including serials that only differ above 16 bits.
+	if shard == 0 {
+		serials := []int{0, 1, 2, 7, 255, 256, 65535, 65536, 65537, 65543, 131072, 131079, -1}
+		for _, s1 := range serials {
+			issuer := vfAuthSerial(s1)
+			if issuer == nil {
+				r.Count("serial_configs_refused", 1)
+				continue
+			}
+			tok, _, err := issuer.GenSecret(&auth.Rec{Uid: 42, AuthLevel: auth.LevelAuth, Lifetime: auth.Duration(time.Hour)})
+			if err != nil {
+				continue
+			}
+			for _, s2 := range serials {
+				if s1 == s2 {
+					continue
+				}
+				r.Eval(1)
+				r.DistinctN(1)
+				verifier := vfAuthSerial(s2)
+				if verifier == nil {
+					continue
+				}
+				if rec, _, err := verifier.Authenticate(tok, ""); err == nil {
+					r.Violation("token:accepts-wrong-serial-config", fmt.Sprintf("token issued under serial_num=%d accepted by a server with serial_num=%d -> %+v", s1, s2, rec), []int{s1, s2})
+				}
 			}
 		}
 	}
